@@ -2,4 +2,4 @@
 From Coq Require Import Extraction ExtrOcamlBasic.
 From XV Require Import C02.Model02 C03.Model03.
 Extraction Language OCaml.
-Extraction "../ocaml/C03/gen_c03.ml" eol_norm eol_spec attnorm_cdata attnorm_spec_cdata attnorm_tok attnorm_tok_inline attnorm_spec_tok length eol_norm11 line_after col_after.
+Extraction "../ocaml/C03/gen_c03.ml" eol_norm eol_spec attnorm_cdata attnorm_spec_cdata attnorm_tok attnorm_tok_inline attnorm_spec_tok length eol_norm11 line_after col_after eol11_spec eol_doc11 att_list locator.
